@@ -661,7 +661,13 @@ impl Harness for C19 {
             }
         } else {
             let n = match tier {
-                Tier::Quick => 1 + rng.below(6) as usize,
+                Tier::Quick => {
+                    if rng.chance(1, 64) {
+                        50 + rng.below(150) as usize
+                    } else {
+                        1 + rng.below(6) as usize
+                    }
+                }
                 Tier::Thorough => {
                     if rng.chance(1, 16) {
                         50 + rng.below(450) as usize
@@ -1036,7 +1042,7 @@ impl Harness for C19 {
          (alloc/alloc_zeroed x 5 sizes, realloc of block 0|1 x 5 sizes, dealloc of block 0|1; sizes 1, 8, L/2, L, L+1), checked after every operation; all later indices are random: \
          one evaluation = one seeded operation history against a private real Alloc::new(limit), limit in {64,1000,4096,2^20}, \
          sizes from {1,8,24,L/3,L/2,L/2+1,L-1,L,L+1,random}, ops alloc/alloc_zeroed/realloc(up/down)/dealloc, checked against a \
-         reference ledger. 7 of 8 runs are sequential (1..6 ops; thorough also 50..500), checked after every operation; 1 of 8 is \
+         reference ledger. 7 of 8 runs are sequential (1..6 ops, 1 in 64 of them 50..200; thorough 1 in 16 with 50..500), checked after every operation; 1 of 8 is \
          concurrent: 1..2 phases of 2..4 (thorough up to 16) controlled threads with 1..6 ops each, every atomic operation of \
          alloc.rs a scheduling point under a seeded policy, joined and checked at each quiescent point. The parent allocator refuses \
          with a per-run probability (0/5/25%). Non-trivial = at least one refusal, or more than one successful operation, or (concurrent) \
